@@ -116,6 +116,10 @@ func (prog *Program) VerifyFunc(ct *Contract, opts Options) (res *UnitResult) {
 	pos := prog.pos(fn.Pos())
 	for i := range ct.Ensures {
 		c := ct.Ensures[i]
+		if c.Thorough && !opts.Thorough {
+			vc.Deferred++
+			continue
+		}
 		parts := SplitConj(c.Expr)
 		for j, pe := range parts {
 			pc := c
